@@ -763,6 +763,47 @@ static void caseR(uint64_t i, vr::Ctx& ctx)
     ctx.nontrivial(vr::hash_str(text, 17));
 }
 
+// ---- L (round 6): quality numerals of every length - what other software prints for 1/3, 2/3, 0.1+0.2, zero-padded values ----
+// q = d.ddd... with 1..40 fraction digits over five digit patterns; the numeral is one token whatever its length: the media type
+// must be accepted, the quality must be the value rounded or truncated to hundredths, and a parameter that follows must survive
+static uint64_t nL;
+static void caseL(uint64_t i, vr::Ctx& ctx)
+{
+    static const char* kPat[] = { "3", "6", "50", "0", "30000000000000004", "9" };
+    int tail = int(i % 3), c = int(i / 3 % 3), pat = int(i / 9 % 6), len = 1 + int(i / 54);
+    std::string frac;
+    while ((int)frac.size() < len)
+        frac += kPat[pat];
+    frac.resize(len);
+    bool one = pat == 3 && len % 2 == 0; // "1.000...": the other legal integer part
+    std::string num = std::string(one ? "1." : "0.") + frac;
+    Want w;
+    std::string text = media_text(atoi(kCarriers[c][0]), atoi(kCarriers[c][1]), atoi(kCarriers[c][2]), 0, w);
+    text += "; q=" + num;
+    if (tail == 1)
+    {
+        text += "; charset=utf-8";
+        w.params["charset"] = "utf-8";
+    }
+    else if (tail == 2)
+    {
+        text += ";b=1";
+        w.params["b"] = "1";
+    }
+    w.checkQ = false;
+    evaluate(text, w, 1, "long quality numeral", ctx);
+    // the value, to the hundredth (rounding or truncation are both the reader's choice)
+    Seen a = via_string(text);
+    if (a.kind == 0)
+    {
+        double v = one ? 1.0 : strtod(num.c_str(), nullptr);
+        int lo = int(v * 100), hi = int(v * 100 + 0.5);
+        if (a.q != lo && a.q != hi)
+            ctx.violation("c18:field-mismatch:q", djson(text, a, ",\"expected_q\":" + std::to_string(lo) + ",\"or\":" + std::to_string(hi)));
+    }
+    ctx.nontrivial(vr::hash_str(text, 19));
+}
+
 // ---- S: single-byte substitutions of canonical texts (every byte value at every position) ---------------------------
 static std::vector<std::string> gSTexts;
 static std::vector<std::pair<int, int>> gSIndex; // (text, position), one case each = 255 inputs
@@ -950,6 +991,7 @@ int main(int argc, char** argv)
     static uint64_t bS, bR, bT;
     bS             = gSIndex.size();
     bR             = gBadQ.size() * 9;
+    nL             = 54ull * 40;
     nT             = 4ull * (7 + 49 + 343 + 2401);
     bT             = (nT + kBlock - 1) / kBlock;
     uint64_t total = bP + bQ + bB + bM + bS + bR + bT;
@@ -970,7 +1012,12 @@ int main(int argc, char** argv)
         else if (idx < bP + bQ + bB + bM + bS)
             caseS(idx - bP - bQ - bB - bM, ctx);
         else if (idx < bP + bQ + bB + bM + bS + bR)
+        {
             caseR(idx - bP - bQ - bB - bM - bS, ctx);
+            if (idx == bP + bQ + bB + bM + bS) // (the 2160 long-numeral inputs ride on the first R case)
+                for (uint64_t l = 0; l < nL; ++l)
+                    caseL(l, ctx);
+        }
         else
             block(idx - bP - bQ - bB - bM - bS - bR, nT, caseT);
         if (idx % 97 == 0)
